@@ -194,6 +194,12 @@ pub(crate) mod verif_fd1 {
         Ok(0)
     }
 
+    /// the decoder in fd2 always has a state; init must not be reached (and is kept out of the proof)
+    fn stub_fd_init<R: Read>(_d: &mut FrameDecoder, _source: R) -> Result<(), FrameDecoderError> {
+        assert!(false, "FD2: decode_from_to must not re-initialise a decoder that has a frame in progress");
+        Err(FrameDecoderError::NotYetInitialized)
+    }
+
     /// FD2: decode_from_to over a source slice: consumed <= given, consumed == counter delta, a block is consumed only if entirely present,
     /// a checksum-only call consumes 4 bytes iff 4 are present (else 0)
     #[cfg(kani)]
@@ -202,6 +208,7 @@ pub(crate) mod verif_fd1 {
     #[kani::stub(crate::decoding::block_decoder::BlockDecoder::read_block_header, crate::decoding::block_decoder::verif_fd1b::stub_read_block_header)]
     #[kani::stub(crate::decoding::block_decoder::BlockDecoder::decode_block_content, crate::decoding::block_decoder::verif_fd1b::stub_decode_block_content)]
     #[kani::stub(<crate::decoding::frame_decoder::FrameDecoder as crate::io::Read>::read, stub_fd_read)]
+    #[kani::stub(FrameDecoder::init, stub_fd_init)]
     fn fd2_decode_from_to() {
         script();
         unsafe { S_OUT = [0; NB]; S_HERR = [false; NB]; S_BERR = [false; NB]; S_LAST[1] = true; }
